@@ -41,6 +41,10 @@ def run(repo, chk, tier):
 
     chk.rule("B-chain", "E6 on a two-parameter component model: trans_error_matrix returns V_y[i,j] = dy_i V_ij dy_j")
     chain_formulas(repo, chk, only="cov")
+    # the Hessian that get_params_error inverts is the Hessian of the minimised function: constraint Hessian once
+    from .c07 import check_constraint_once
+
+    check_constraint_once(repo, chk, ("hess",), rule="H-once")
 
 
 def clause_a(repo, chk, tier):
